@@ -64,8 +64,11 @@ CHECKS = {
     'C09': dict(
         text='Proof for the math engine: convert_math emits exactly one piece per child in order (whitespace -> blank / mandatory break by '
              'its newline content, `#` and other tokens -> their own text, expressions -> convert_expr with breaks suppressed), nothing in '
-             'between; convert_equation / convert_math_attach/frac/root verified for comment safety against the list/flow engines.',
-        note='Partial: convert_math_delimited and convert_args_in_math are contract-only stubs (slice patterns / closure capturing &mut). '
+             'between; convert_math_delimited keeps the whitespace token after the opening and before the closing delimiter as exactly a '
+             'blank / mandatory break; convert_equation / convert_math_attach/frac/root verified for comment safety against the '
+             'list/flow engines.',
+        note='Partial: convert_args_in_math is a contract-only stub (closure capturing &mut); the spacing chosen by the flow engine between '
+             'the operands of attach/frac/root is covered only by the exact push_doc contract. '
              'Trusted: shims, parser facts.',
         ref='DESIGN.md 5/C09', technique=TECH),
     'C10': dict(
